@@ -75,7 +75,7 @@ pub fn issue(rb: &mut RunBuilder, r: &mut Rng, o: IssueOpts) -> TokenDesc {
         }
         Layer::Generic | Layer::Batteries => {
             let b = rb.builder_id();
-            rb.push(Op::NewBuilder { b, proto: o.proto, layer: o.layer, now_ns: Ns(o.now) });
+            rb.push(Op::NewBuilder { b, proto: o.proto, layer: o.layer, now_ns: Ns(o.now), hash_seed: r.next() });
             if let Some(Value::Object(m)) = &o.json_payload {
                 for (k, v) in m {
                     rb.push(Op::BuilderOp { b, op: BOp::SetClaim(ClaimSpec::Custom { key: k.clone(), value: v.clone() }) });
